@@ -27,23 +27,17 @@ func runC13L2(c *Ctx) {
 // C13.E2: every caller of the location builder hands it the request URL itself or a copy carrying RawPath.
 func runC13E2(c *Ctx) {
 	lk := c.method("route", "Table", "Lookup")
-	build := c13buildFn(c)
-	if !c.need("C13.E2", lk, "route.Table.Lookup") || !c.need("C13.E2", build, "route.Target.BuildRedirectURL") {
+	if !c.need("C13.E2", lk, "route.Table.Lookup") {
+		return
+	}
+	bi := c13findBuilders(c)
+	if len(bi.fns) == 0 {
+		c.undecided("C13.E2", "anchor|requestURL parameter", "no function of package route has a request parameter (*url.URL or *http.Request) from which the \"$path\" substitution derives")
 		return
 	}
 	inLookup := map[*ssa.Function]bool{}
 	for _, f := range c.region(lk) {
 		inLookup[f] = true
-	}
-	idx := -1
-	for k, p := range build.Params {
-		if typeStr(p.Type()) == "*net/url.URL" {
-			idx = k
-		}
-	}
-	if idx < 0 {
-		c.undecided("C13.E2", "anchor|requestURL parameter", "BuildRedirectURL has no *url.URL parameter")
-		return
 	}
 	isReqURL := func(v ssa.Value) bool { _, ok := fieldOf(v, "http.Request", "URL"); return ok }
 	var carriesRawPath func(arg ssa.Value, depth int) bool
@@ -85,17 +79,61 @@ func runC13E2(c *Ctx) {
 			return false
 		})
 	}
+	const detail = "BuildRedirectURL substitutes $path with the encoded path (RawPath) when the request has one; it must be given req.URL itself or a copy that carries RawPath — a URL rebuilt from Path and RawQuery alone turns %2F in the request into '/' in the Location"
 	n := 0
-	for _, site := range gSites[build] {
-		cc := site.Common()
-		if idx >= len(cc.Args) {
-			continue
+	// (i) the hand-over: every caller of a function of the builder family passes the request URL or such a copy
+	for _, build := range bi.fns {
+		for _, site := range gSites[build] {
+			cc := site.Common()
+			for idx, p := range build.Params {
+				if !bi.isParam(p) || bi.kind != "*net/url.URL" || idx >= len(cc.Args) {
+					continue
+				}
+				// a member of the family that passes its own request URL on: its callers are checked in turn
+				passOn := bi.isParam(cc.Args[idx])
+				if inLookup[site.Parent()] && !passOn {
+					n++
+				}
+				c.check("C13.E2", "(route.Table).Lookup|redirect built from the request URL including RawPath", site.Pos(), passOn || carriesRawPath(cc.Args[idx], 0), detail)
+			}
 		}
-		if inLookup[site.Parent()] {
-			n++
+	}
+	// (ii) wherever it is made: a url.URL assembled in package route from which the $path replacement derives carries
+	// RawPath (a builder that takes the *http.Request has no hand-over to look at)
+	var repls []ssa.Value
+	reg := c.region(append([]*ssa.Function{lk}, bi.fns...)...)
+	eachInstrOf(reg, func(f *ssa.Function, i ssa.Instruction) {
+		if cc := callCommon(i); cc != nil {
+			if v, r, ok := c13subst(cc); ok && v == "$path" {
+				repls = append(repls, r)
+				if bi.kind != "*net/url.URL" && inLookup[f] && derives(r, isReqURL) {
+					n++
+				}
+			}
 		}
-		c.check("C13.E2", "(route.Table).Lookup|redirect built from the request URL including RawPath", site.Pos(), carriesRawPath(cc.Args[idx], 0),
-			"BuildRedirectURL substitutes $path with the encoded path (RawPath) when the request has one; it must be given req.URL itself or a copy that carries RawPath — a URL rebuilt from Path and RawQuery alone turns %2F in the request into '/' in the Location")
+	})
+	for _, f := range c.fnsWhere("route", func(*ssa.Function) bool { return true }) {
+		for _, a := range allocsOf(f, "url.URL") {
+			fromRequest := false
+			for _, st := range fieldStores(a)["Path"] {
+				if derives(st.Val, func(x ssa.Value) bool { return isReqURL(x) || bi.isParam(x) }) {
+					fromRequest = true
+				}
+			}
+			if !fromRequest {
+				continue
+			}
+			used := false
+			for _, r := range repls {
+				if derives(r, sameVal(a)) {
+					used = true
+					break
+				}
+			}
+			if used {
+				c.check("C13.E2", "(route.Table).Lookup|redirect built from the request URL including RawPath", a.Pos(), carriesRawPath(a, 0), detail)
+			}
+		}
 	}
 	c.atLeast("C13.E2", "BuildRedirectURL calls reachable from Table.Lookup", n, 1)
 }
